@@ -391,6 +391,16 @@ Proof.
   split; [tw_crush|split; [cred_crush|deb_crush]].
 Qed.
 
+(* ---- OLVM transaction (transfer, call, contract creation) ---- *)
+Lemma olvm_stmt : forall sender target fp value reverted fee ops, effect_olvm sender target fp value reverted fee = Some ops ->
+  no_creation ops /\ credits_ok ops /\ takes_only_from ops [sender].
+Proof.
+  intros sender target fp value reverted fee ops H. unfold effect_olvm in H. open_effect H. split_guards.
+  destruct reverted; (split; [tw_crush|split; [cred_crush|deb_crush]]).
+Qed.
+(* hence, for EVERY ledger - whatever the created contract's address already held - the total of every currency is unchanged
+   or lower and the target's balance after a creation is exactly what it held plus the endowment *)
+
 (* ---- allegation penalty / bounty (EndBlock, guilty verdict) ---- *)
 Lemma penalty_amount_nonneg total pct dec : 0 <= total -> 0 <= pct -> 0 < dec -> 0 <= penalty_amount total pct dec.
 Proof. intros. unfold penalty_amount. apply Z.div_pos; nia. Qed.
@@ -523,3 +533,18 @@ Proof. intros known cur signer rpool v payer fp fee ops Hfee H. destruct (withdr
 Lemma withdraw_reward_authority : forall known cur signer rpool v payer fp fee ops, 0 <= fee ->
   effect_withdraw_reward known cur signer rpool v = Some ops -> takes_only_from (ops ++ fee_ops payer fp fee) [rpool; payer].
 Proof. intros known cur signer rpool v payer fp fee ops Hfee H. destruct (withdraw_reward_facts payer fp fee Hfee _ _ _ _ _ _ H) as [_ [_ C]]. exact C. Qed.
+
+(* a contract creation conserves every total whatever the new address already held *)
+Lemma olvm_create_conserves : forall (l : gmap key Z) sender target fp value fee ops c, sender <> target ->
+  effect_olvm sender target fp value false fee = Some ops -> forall l', apply_ops l ops = Some l' ->
+  total c l' = total c l /\ lget l' (bal target CUR_OLT) = lget l (bal target CUR_OLT) + value.
+Proof.
+  intros l sender target fp value fee ops c NE H l' A. unfold effect_olvm in H. open_effect H. split_guards.
+  split.
+  - rewrite (total_exact c _ _ _ A). unfold minted, burned, op_mint, op_burn, tw, k_cur, k_bucket, bal, feepool, mk. cbn. repeat case_match; lia.
+  - assert (K1 : bal sender CUR_OLT <> bal target CUR_OLT) by (unfold bal, mk; intros E; inversion E; congruence).
+    assert (K2 : feepool fp <> bal target CUR_OLT) by (unfold feepool, bal, mk, B_FEE, B_BAL; intros E; inversion E).
+    simpl in A. destruct (lget l (bal sender CUR_OLT) - value <? 0); [discriminate|].
+    match type of A with context [if ?b then _ else _] => destruct b; [discriminate|] end. injection A as <-.
+    rewrite !lget_ladd. repeat case_decide; try congruence; lia.
+Qed.
